@@ -241,7 +241,7 @@ func runEnvChild(o opts) error {
 			defer os.Remove(dump)
 			cl := plugin.NewClient(cfg)
 			cl.Start()
-			cl.Kill()
+			boundedKill(cl)
 			b, _ := os.ReadFile(dump)
 			for _, e := range bytes.Split(b, []byte{0}) {
 				if len(e) > 0 {
@@ -254,7 +254,7 @@ func runEnvChild(o opts) error {
 		if cfg != nil {
 			cl := plugin.NewClient(cfg)
 			cl.Start()
-			cl.Kill()
+			boundedKill(cl)
 		}
 		// model input
 		vs := sx.L{}
